@@ -1,42 +1,71 @@
 import QibModel.Vqe
+import QibModel.PauliOps
 import QibModel.DriverMain
 /-!
-Driver ops for C20 (shared executable `drv_algo`; this module only exports `Qib.Vqe.dispatch`):
+Driver ops for C20 (executable `drv_algo`; this module exports `Qib.Vqe.dispatch`):
 
-* `vqe.expect`    `{psi: [[re,im],…], P: Mat}` → `{raised: null | msg, value: [re,im], spec: [re,im]}`
-  (`value` = the code's `(ψ̄ᵀ P) ψ`, `spec` = the double sum `Σᵢⱼ conj ψᵢ Pᵢⱼ ψⱼ`)
-* `vqe.generator` `{L: nat, Ts: [Mat,…]}` → one entry per `T`: `{G: T − Tᴴ, skew: Gᴴ = −G, commN: [N,G] = 0,
-  commT: [N,T] = 0, commSq: Σ|[N,G]ᵢⱼ|²}`
+* `vqe.expect` `{psi: [[re,im],…], strings: [[{z,x,q},[re,im]],…]}` or `{psi, P: Mat}`
+  → `{raised: null | "<ExceptionClass>", value: [re,im], spec: [re,im], herm: bool}`
+  (`value` = the code's `(ψ̄ᵀ P) ψ`, `spec` = the double sum `Σᵢⱼ conj ψᵢ Pᵢⱼ ψⱼ`, `herm` = `Pᴴ = P` exactly)
+* `vqe.qucc` `{L, exc: "s"|"d"|"sd"|…, params: [[re,im],…]}`
+  → `{raised: "<ExceptionClass>"}` or `{raised: null, terms: [{T, G: T − Tᴴ, skew: Gᴴ = −G, commT: [N,T] = 0,
+  commG: [N,G] = 0}, …]}` – one entry per exponential factor, in the order of the product.
 -/
 open Lean
 namespace Qib.Vqe
 open Qib Qib.J
 
+def parsePsi (j : Json) : Except String (Array GQ) := do
+  return (← (← fList j "psi").mapM GQ.ofJson).toArray
+
+def isHermitianMat (P : Mat) : Bool := P.n == P.m && P.adjoint.beq P
+
+def expectReply (r : Except String GQ) (spec : GQ) (herm : Bool) : Json :=
+  match r with
+  | .error e => Json.mkObj [("raised", .str e)]
+  | .ok v => Json.mkObj [("raised", Json.null), ("value", v.toJson), ("spec", spec.toJson), ("herm", .bool herm)]
+
 def opExpect (j : Json) : Except String Json := do
-  let ψ := (← (← fList j "psi").mapM GQ.ofJson).toArray
-  let P ← Mat.ofJson (← field j "P")
-  match expect ψ P with
-  | .error e => return Json.mkObj [("raised", .str e)]
-  | .ok v => return Json.mkObj [("raised", Json.null), ("value", v.toJson), ("spec", (expectSpec ψ P).toJson)]
+  let ψ ← parsePsi j
+  match j.getObjVal? "strings" with
+  | .ok s =>
+    let op ← (← list s).mapM fun e => match e with
+      | .arr #[p, w] => do return (← Qib.Pauli.parsePS p, ← Qib.Pauli.parseGQ w)
+      | _ => .error "expected [string, weight]"
+    match op with
+    | [] => return expectReply (expectPauli ψ op) 0 false
+    | (P0, _) :: _ =>
+      if !(op.all fun e => e.1.z.length == P0.z.length && e.1.x.length == P0.z.length) then
+        .error "strings of different lengths (the PauliOperator constructor refuses them)"
+      else if P0.z.length > 7 then .error "too many qubits for the exact model" else
+      let P := pauliMat P0.z.length op
+      return expectReply (expectPauli ψ op) (expectSpec ψ P) (isHermitianMat P)
+  | .error _ =>
+    let P ← Mat.ofJson (← field j "P")
+    return expectReply (expect ψ P) (expectSpec ψ P) (isHermitianMat P)
 
-def genOne (L : Nat) (T : Mat) : Json :=
+def termJson (L : Nat) (T : Mat) : Json :=
   let G := quccGenerator T
-  Json.mkObj [("G", G.toJson), ("skew", .bool (isSkewAdjoint G)), ("commN", .bool (commutesWithN L G)),
-    ("commT", .bool (commutesWithN L T)),
-    ("commSq", .str (GQ.ratStr (normSq (commutator (numberOp L) G))))]
+  Json.mkObj [("T", T.toJson), ("G", G.toJson), ("skew", .bool (isSkewAdjoint G)),
+    ("commT", .bool (commutesWithN L T)), ("commG", .bool (commutesWithN L G))]
 
-def opGenerator (j : Json) : Except String Json := do
+def opQucc (j : Json) : Except String Json := do
   let L ← fNat j "L"
-  if L > 6 then .error "L too large for the exact model" else
-  let Ts ← (← fList j "Ts").mapM Mat.ofJson
-  for T in Ts do
-    if T.n != 2 ^ L || T.m != 2 ^ L then throw "T must be 2^L x 2^L"
-  return Json.arr (Ts.map (genOne L)).toArray
+  if L > 5 then .error "L too large for the exact model" else
+  let params := (← (← fList j "params").mapM GQ.ofJson).toArray
+  match parseExc (← fStr j "exc") with
+  | .error e => return Json.mkObj [("raised", .str e), ("where", .str "ctor")]
+  | .ok exc =>
+    match quccTerms L exc params with
+    | .error e => return Json.mkObj [("raised", .str e), ("where", .str "as_matrix")]
+    | .ok Ts =>
+      return Json.mkObj [("raised", Json.null), ("nparams", Json.num (JsonNumber.fromNat (numParameters L exc))),
+        ("terms", Json.arr (Ts.map (termJson L)).toArray)]
 
 def dispatch : Dispatch := fun op j =>
   match op with
   | "vqe.expect" => some (opExpect j)
-  | "vqe.generator" => some (opGenerator j)
+  | "vqe.qucc" => some (opQucc j)
   | _ => none
 
 end Qib.Vqe
